@@ -1,5 +1,6 @@
 # Driver table used by ./check and tools/gen_manifest.py: property id -> build + claim description.
 COMMON = ["common/boundary.cpp", "common/runner.cpp", "common/world.cpp", "common/sim.cpp"]
+COMMON_E2 = ["sched/sched.cpp", "sched/vbstub.cpp", "common/runner.cpp"]
 
 NOT_APPLICABLE = {}
 
@@ -105,5 +106,11 @@ DRIVERS = {
         "technique": "complete enumeration of single and double faults (file absent/empty/unreadable per cgroup role, optional keys, format variants, DT_UNKNOWN) and of every file-access index as the point where a cgroup is removed or re-created, each executed on the real tick loop under ASan+UBSan+_GLIBCXX_ASSERTIONS with an exception/hang/containment monitor",
         "level_text": "Every fault of the stated space is injected at the interposed open/openat/fopen/faccessat/xattr boundary (or by an environment event fired immediately before the k-th file access, for every k of the run) and the unmodified Oomd::run is executed for 3 ticks with all core plugins configured; a run counts as survived only if it reaches its horizon with no sanitizer or assertion report, no exception leaving Oomd::run, no hang, and with every signal still confined to the selected victim.",
         "level_note": "Trusted: fault injection at the libc boundary (glob(3)'s internal directory reads cannot be faulted), harness world. A fault present at configuration load time may lead to a clean rejection, which counts as survived. Garbage contents are outside the statement.",
+    },
+    "C20": {
+        "sources": COMMON_E2 + ["props/c20.cpp"], "level": "model_checking", "engine": "E2",
+        "technique": "stateless preemption-bounded enumeration of all thread schedules of the real Log (producers, flusher, environment thread, shutdown) under a cooperative scheduler interposed at the pthread boundary; FIFO-multiset / backlog oracle per schedule; separate free-running ThreadSanitizer pass",
+        "level_text": "For every configuration all schedules with at most PB preemptions are executed on the real implementation (one process per schedule); each is checked for exactly-once delivery, per-thread order, flush-before-shutdown-returns, the 1 MiB unwritten bound at every step, drop accounting, per-thread silencing and absence of deadlock/livelock. The coverage statement is at synchronisation-point granularity.",
+        "level_note": "Trusted: scheduler (harness/sched), harness sink. Assumes data-race freedom between synchronisation points, which a separate TSan build of the same bodies monitors; memory orderings weaker than seq-cst are not modelled (oomd uses none here).",
     },
 }
